@@ -88,6 +88,7 @@ def confirm(d):
     path, cmd = demo_info(d)
     res["demo_path"], res["demo_cmd"] = path, cmd
     if path:
+        os.makedirs(os.path.dirname(os.path.join(WT, path)), exist_ok=True)
         shutil.copy(os.path.join(d, "demo.rs"), os.path.join(WT, path))
         rc, out, dt = sh(cmd, cwd=WT, timeout=400)
         res["demo_with_patch"] = {"exit": rc, "wall_s": round(dt, 1), "tail": out[-600:]}
